@@ -777,4 +777,34 @@ def C14(c):
     c.assumptions.append("one pooled value per run; destruction is observed through the instrumented payload (drop counter, alive marker) and the wrapper allocator")
 
 
-CHECKS = {"C14": C14, "C05": C05, "C09": C09, "C03": C03, "C10": C10, "C17": C17, "C04": C04, "C07": C07, "C08": C08, "C16": C16, "C20": C20, "C02": C02, "C13": C13, "C18": C18, "C15": C15, "C01": C01}
+def C19(c):
+    quick = c.tier == "quick"
+    inv = ["InvCount", "InvNoLostUpdate", "InvProbePair", "InvFinalCount"]
+    c.mc("MC_IncAvg", "Script_2r1p", {"Procs": [0, 1, 2]}, subst={"Script": "Script_2r1p"}, invariants=inv, required_actions=["MCCall", "IncCasOk", "IncCasFail", "ProbeLoad"], timeout=1200, workers=8)
+    if not quick:
+        c.mc("MC_IncAvg", "Script_3r1p", {"Procs": [0, 1, 2, 3]}, subst={"Script": "Script_3r1p"}, invariants=inv, required_actions=["MCCall", "IncCasOk", "IncCasFail", "ProbeLoad"], timeout=3000, workers=10)
+    INC = lambda m: {"op": "inc", "m": m, "v": 0, "i": 0}
+    PR = {"op": "probe", "v": 0, "i": 0}
+    mr, rr = (500, 400) if quick else (10000, 8000)
+    scripts = [("3r1p", [[INC(0.5), INC(2.25)], [INC(3.0), INC(0.5)], [INC(-1.0), INC(4.125)], [PR, PR]]),
+               ("2r1p", [[INC(1.5), INC(2.0), INC(5.75)], [INC(3.0), INC(-1.0)], [PR, PR, PR]]),
+               ("sent", [[INC(-1.0), INC(-1.0)], [INC(-1.0)], [PR, INC(0.125), PR]])]
+    scns = []
+    for i, (nm, th) in enumerate(scripts):
+        scns.append({"id": "avg_%s_dfs" % nm, "sut": "inc_avg", "n": 2, "s": 1, "origin": 0, "record_ops": True, "threads": [{"name": "t%d" % k, "ops": ops} for k, ops in enumerate(th)], "explore": dfs(3, mr)})
+        scns.append({"id": "avg_%s_rnd" % nm, "sut": "inc_avg", "n": 2, "s": 1, "origin": 0, "record_ops": True, "threads": [{"name": "t%d" % k, "ops": ops} for k, ops in enumerate(th)], "explore": rnd(rr, c.seed * 10 + i)})
+    consts = {"Procs": [0, 1, 2, 3]}
+    trace, runs, v = c.conform(scns, "inc_avg", "Trace_IncAvg", consts)
+    for x in v["violations"]:
+        s2 = dict([s for s in scns if s["id"] == x["run"]["scn"]][0])
+        s2["explore"] = {"mode": "replay", "schedules": [x["run"]["choices"]]}
+        c.violation("%s violated by the real code (scenario %s, run %d)" % (x["inv"], x["run"]["scn"], x["run"]["run"]),
+                    {"scenario": s2, "run": x["run"], "events": extract_run(trace, x["run"]), "module": "Trace_IncAvg", "consts": {k: tla_val(q) for k, q in consts.items()}, "invariant": x["inv"]})
+    if v["mismatches"]:
+        c.drift.append("inc_avg: %d run(s) are not behaviours of IncAvg (first unmatched event: %s)" % (len(v["mismatches"]), json.dumps(v["mismatches"][0]["event"])[:300]))
+    sample_run(c, trace, runs, scns, "validated execution of the real AtomicIncrementalAverage64")
+    c.assumptions.append("TLC has no floats: the average is symbolic in the model; the harness re-computes, with the library's own f32 formula, whether a probed (count, average) pair is the fold of some "
+                         "interleaving of per-thread prefixes (bit-exact), and checks the final mean in f64 within 1e-3 relative tolerance -- the one clause of C19 that TLA+ does not decide")
+
+
+CHECKS = {"C19": C19, "C14": C14, "C05": C05, "C09": C09, "C03": C03, "C10": C10, "C17": C17, "C04": C04, "C07": C07, "C08": C08, "C16": C16, "C20": C20, "C02": C02, "C13": C13, "C18": C18, "C15": C15, "C01": C01}
